@@ -4,6 +4,7 @@
 package hasher
 
 import (
+	"reflect"
 	"unsafe"
 
 	"github.com/zeebo/xxh3"
@@ -13,6 +14,44 @@ type Hasher[K comparable] struct {
 	ksize int
 	kstr  bool
 	kfunc func(K) string
+	// byte ranges of K that == ignores (struct padding, blank fields): their
+	// content is arbitrary, so they are zeroed before the key's memory is hashed
+	pads [][2]uintptr
+}
+
+// paddingRanges appends the byte ranges inside a value of type t (placed at
+// offset base) that do not belong to any field.
+func paddingRanges(t reflect.Type, base uintptr, pads [][2]uintptr) [][2]uintptr {
+	switch t.Kind() {
+	case reflect.Struct:
+		end := uintptr(0)
+		for i := 0; i < t.NumField(); i++ {
+			f := t.Field(i)
+			if f.Offset > end {
+				pads = append(pads, [2]uintptr{base + end, base + f.Offset})
+			}
+			if f.Name == "_" {
+				pads = append(pads, [2]uintptr{base + f.Offset, base + f.Offset + f.Type.Size()})
+			} else {
+				pads = paddingRanges(f.Type, base+f.Offset, pads)
+			}
+			end = f.Offset + f.Type.Size()
+		}
+		if t.Size() > end {
+			pads = append(pads, [2]uintptr{base + end, base + t.Size()})
+		}
+	case reflect.Array:
+		if t.Len() > 0 {
+			elem := paddingRanges(t.Elem(), 0, nil)
+			for i := 0; i < t.Len() && len(elem) > 0; i++ {
+				off := base + uintptr(i)*t.Elem().Size()
+				for _, p := range elem {
+					pads = append(pads, [2]uintptr{off + p[0], off + p[1]})
+				}
+			}
+		}
+	}
+	return pads
 }
 
 func NewHasher[K comparable](stringKeyFunc func(K) string) *Hasher[K] {
@@ -23,6 +62,9 @@ func NewHasher[K comparable](stringKeyFunc func(K) string) *Hasher[K] {
 		h.kstr = true
 	default:
 		h.ksize = int(unsafe.Sizeof(k))
+		if t := reflect.TypeOf(k); t != nil {
+			h.pads = paddingRanges(t, 0, nil)
+		}
 	}
 	return h
 }
@@ -33,6 +75,15 @@ func (h *Hasher[K]) Hash(key K) uint64 {
 		strKey = h.kfunc(key)
 	} else if h.kstr {
 		strKey = *(*string)(unsafe.Pointer(&key))
+	} else if len(h.pads) > 0 {
+		buf := make([]byte, h.ksize)
+		copy(buf, unsafe.Slice((*byte)(unsafe.Pointer(&key)), h.ksize))
+		for _, p := range h.pads {
+			for i := p[0]; i < p[1]; i++ {
+				buf[i] = 0
+			}
+		}
+		return xxh3.Hash(buf)
 	} else {
 		strKey = *(*string)(unsafe.Pointer(&struct {
 			data unsafe.Pointer
